@@ -220,6 +220,8 @@ type microOp struct {
 }
 
 type blockRec struct {
+	cache    map[string]Value  // values of locations already read/written inside this atomic block
+	mcache   map[string]mapHit // map slots already looked up / updated inside this atomic block
 	Tid      int
 	Src, Dst string
 	Ops      []microOp
@@ -285,6 +287,11 @@ type eventCtx struct {
 	fineGrained     bool
 	setupCells      map[int]*Cell
 	initVals        map[string]Value // initial value of mutable setup cells, captured lazily
+}
+
+type mapHit struct {
+	found bool
+	v     Value
 }
 
 type restartExploration struct{ why string }
@@ -776,6 +783,11 @@ func (e *Engine) evLoad(fr *frame, c *Cell) Value {
 	if e.localRead(loc, c) {
 		return e.copyVal(c.V)
 	}
+	if b := e.ev.cur.blk; b != nil && b.cache != nil {
+		if v, ok := b.cache[loc]; ok {
+			return e.copyVal(v) // same atomic block: the location cannot have changed
+		}
+	}
 	shapes := e.ev.reg.shapes[loc]
 	if len(shapes) == 0 {
 		panic(engineErr("event mode: load of %s with no known shape", loc))
@@ -804,8 +816,19 @@ func (e *Engine) evLoad(fr *frame, c *Cell) Value {
 	e.emitOp(op)
 	pos := 0
 	v := e.rebuild(sh, op.Leaves, &pos)
+	e.cacheSet(loc, v)
 	e.endBlock(false)
 	return v
+}
+
+// cacheSet remembers the value of a location for the rest of the current atomic block.
+func (e *Engine) cacheSet(loc string, v Value) {
+	if b := e.ev.cur.blk; b != nil {
+		if b.cache == nil {
+			b.cache = map[string]Value{}
+		}
+		b.cache[loc] = v
+	}
 }
 
 func (e *Engine) loadAggregate(fr *frame, c *Cell) Value {
@@ -873,6 +896,7 @@ func (e *Engine) evStore(fr *frame, c *Cell, v Value) {
 	e.ev.reg.addWriter(loc, e.ev.cur.id)
 	e.emitOp(microOp{Kind: "store", Loc: loc, Shape: sh, Leaves: leaves, ShapeI: si, Pos: e.posOf(fr)})
 	c.V = e.copyVal(v) // keep the thread's own view (used when it is the only writer)
+	e.cacheSet(loc, e.copyVal(v))
 	e.endBlock(false)
 }
 
@@ -991,6 +1015,11 @@ func (e *Engine) evMapLookup(fr *frame, mname string, k Value) (bool, Value) {
 func (e *Engine) evMapLookup2(fr *frame, mname string, k Value, mustFind bool) (bool, Value) {
 	ki, _ := e.resolveKey(mname, k)
 	slot := fmt.Sprintf("%s{%d}", mname, ki)
+	if b := e.ev.cur.blk; b != nil && b.mcache != nil {
+		if h, ok := b.mcache[slot]; ok {
+			return h.found, e.copyVal(h.v)
+		}
+	}
 	found := e.newPlaceholder(BoolSort)
 	op := microOp{Kind: "mlookup", Atomic: e.ev.reg.syncMap[mname], Loc: mname, KeyIx: ki, Res: found, Pos: e.posOf(fr)}
 	var isFound bool
@@ -1031,8 +1060,18 @@ func (e *Engine) evMapLookup2(fr *frame, mname string, k Value, mustFind bool) (
 		op.ShapeI = -1
 	}
 	e.emitOp(op)
+	e.mcacheSet(slot, isFound, v)
 	e.endBlock(false)
 	return isFound, v
+}
+
+func (e *Engine) mcacheSet(slot string, found bool, v Value) {
+	if b := e.ev.cur.blk; b != nil {
+		if b.mcache == nil {
+			b.mcache = map[string]mapHit{}
+		}
+		b.mcache[slot] = mapHit{found, v}
+	}
 }
 
 func (e *Engine) evMapUpdate(fr *frame, mname string, k, v Value) {
@@ -1041,12 +1080,14 @@ func (e *Engine) evMapUpdate(fr *frame, mname string, k, v Value) {
 	sh, leaves := e.flatten(v)
 	si := e.ev.reg.addShape(slot, sh)
 	e.emitOp(microOp{Kind: "mupdate", Atomic: e.ev.reg.syncMap[mname], Loc: mname, KeyIx: ki, Shape: sh, Leaves: leaves, ShapeI: si, Pos: e.posOf(fr)})
+	e.mcacheSet(slot, true, e.copyVal(v))
 	e.endBlock(false)
 }
 
 func (e *Engine) evMapDelete(fr *frame, mname string, k Value) {
 	ki, _ := e.resolveKey(mname, k)
 	e.emitOp(microOp{Kind: "mdelete", Atomic: e.ev.reg.syncMap[mname], Loc: mname, KeyIx: ki, Pos: e.posOf(fr)})
+	e.mcacheSet(fmt.Sprintf("%s{%d}", mname, ki), false, nil)
 	e.endBlock(false)
 }
 
